@@ -10,6 +10,7 @@ static const int NSHAPES_JSON = 11, NSHAPES_MP = 10;
 
 uint64_t vf_total(const std::string& mode) {
   if (mode == "grid") return 256ull * (NSHAPES_JSON + NSHAPES_MP);
+  if (mode == "default") return (uint64_t)(NSHAPES_JSON + NSHAPES_MP);   // no NestingLimit option: the configured default applies
   return 0;
 }
 
@@ -60,14 +61,14 @@ static Shape shape(int id, bool msgpack, Rng& r) {
 
 struct RunOut { AJ::DeserializationError err; size_t nesting = 0; size_t stack = 0; };
 
-static bool g_filter_first = false;
+static bool g_filter_first = false, g_no_limit_option = false;
 static RunOut run(const std::string& bytes, const Shape& s, uint8_t L) {
   RunOut o;
   AJ::JsonDocument filter;
   if (s.filter == 1) filter["keep"] = true;
   if (s.filter == 2) filter["a"] = true;
   AJ::JsonDocument doc;
-  DeserOpt op; op.msgpack = s.msgpack; op.limit = L; op.filter_first = g_filter_first; op.use_filter = s.filter != 0; op.filter = filter.as<AJ::JsonVariantConst>();
+  DeserOpt op; op.msgpack = s.msgpack; op.limit = L; op.filter_first = g_filter_first; op.no_limit_option = g_no_limit_option; op.use_filter = s.filter != 0; op.filter = filter.as<AJ::JsonVariantConst>();
   ReadStats st;
   char anchor;
   o.err = deser_kind(IN_CUSTOM_READER, doc, bytes, op, &st);
@@ -83,6 +84,9 @@ void vf_run_case(Ctx& c, uint64_t index) {
   int L; int sid; bool msgpack;
   if (c.mode == "grid") {
     L = (int)(index % 256); int k = (int)(index / 256);
+    msgpack = k >= NSHAPES_JSON; sid = msgpack ? k - NSHAPES_JSON : k;
+  } else if (c.mode == "default") {
+    L = ARDUINOJSON_DEFAULT_NESTING_LIMIT; int k = (int)index; g_no_limit_option = true;
     msgpack = k >= NSHAPES_JSON; sid = msgpack ? k - NSHAPES_JSON : k;
   } else { L = (int)r.below(256); msgpack = r.coin(); sid = (int)r.below(msgpack ? NSHAPES_MP : NSHAPES_JSON); }
   Shape s = shape(sid, msgpack, r);
